@@ -186,7 +186,6 @@ def run(ck):
             ck.check(encl == [eloop.id], "C06.R4", "scheduler.step() once per epoch, outside the batch loop", lsite,
                      "scheduler.step() is %s" % ("inside the batch loop: the learning rate is advanced once per batch" if bloop.id in encl else "outside the epoch loop"))
         if True:
-            guards = [g for g in cfg.nodes if g.kind == "test" and cfg.dominates(g.id, n.id) and eloop.ast.body[0].lineno <= g.lineno]
             # what guards it is decided by value: with a scheduler given, every path of fit advances it exactly once in
             # every epoch that runs to its end (an epoch = from one epoch-start event to the next), after that epoch's
             # last optimizer step.  Where it stands relative to the epoch-end event, and whether an epoch cut short by
